@@ -646,8 +646,77 @@ func c14CaseRB(ext, s *sx.Node, order *sx.Node, ops []*sx.Node) *sx.Node {
 	return c14Case(ext, s, rebuiltFromDescription(s, inl, order), ops)
 }
 
-func genC14(r *Rng, tier string, emit func(*sx.Node)) {
+// c14NSPairs: names the two external namespaces take.  Namespaces are plain strings compared for EQUALITY, so the
+// pairs are near-equal names: differing only in letter case (ASCII, and a non-ASCII simple case fold), one a prefix
+// of the other, differing in a trailing / leading space, blank names next to the self namespace "", names with
+// separators.  Both tables hold an object X of different shapes, references go into both, both orders are applied.
+var c14NSPairs = [][2]string{
+	{"Steps", "steps"}, {"steps", "STEPS"}, {"ns", "ns "}, {"n", "n1"}, {" ", "  "}, {"a.b", "a.B"},
+	{"k", "\u212a"}, {"n2", "n1"}, {"ns/a", "ns"}, {"steps", " steps"},
+}
+
+// c14Rename: the descriptor / case with the namespace names of every reference, of the external tables and of the
+// order replaced (a fresh tree: the fixed descriptors are shared between cases).
+func c14Rename(n *sx.Node, m map[string]string) *sx.Node {
+	if !n.IsList() {
+		return n
+	}
+	ren := func(x *sx.Node) *sx.Node {
+		if to, ok := m[x.Str]; ok && x.IsStr {
+			return sx.S(to)
+		}
+		return x
+	}
+	out := sx.L()
+	switch {
+	case n.Head() == "ref" && len(n.List) == 4:
+		return sx.L(n.List[0], n.List[1], ren(n.List[2]), n.List[3])
+	case n.Head() == "order" || n.Head() == "order-so" || n.Head() == "order-rb":
+		out.Append(n.List[0])
+		for _, c := range n.List[1:] {
+			out.Append(ren(c))
+		}
+		return out
+	case n.Head() == "ext" && len(n.List) == 2 && n.List[1].IsList():
+		tabs := sx.L()
+		for _, e := range n.List[1].List {
+			tabs.Append(sx.L(ren(e.List[0]), c14Rename(e.List[1], m)))
+		}
+		return sx.L(n.List[0], tabs)
+	case n.Head() == "ops" || n.Head() == "json" || n.Head() == "reok":
+		return n // data: never renamed
+	}
+	for _, c := range n.List {
+		out.Append(c14Rename(c, m))
+	}
+	return out
+}
+
+func c14HasExt(c *sx.Node) bool { return len(c.List[1].List[1].List[1].List) > 0 }
+
+func genC14(r *Rng, tier string, emit0 func(*sx.Node)) {
 	ext := c14ExtTables(r)
+	// every fixed case that has external namespaces is emitted as written (n1, n2) AND under one of the near-equal
+	// pairs of names (cycling through them); a generated case takes a random pair 60% of the time
+	fixed, nth := true, 0
+	emit := func(c *sx.Node) {
+		if !c14HasExt(c) {
+			emit0(c)
+			return
+		}
+		if fixed {
+			emit0(c)
+			p := c14NSPairs[nth%len(c14NSPairs)]
+			nth++
+			emit0(c14Rename(c, map[string]string{"n1": p[0], "n2": p[1]}))
+			return
+		}
+		if r.Chance(60) {
+			p := pick(r, c14NSPairs)
+			c = c14Rename(c, map[string]string{"n1": p[0], "n2": p[1]})
+		}
+		emit0(c)
+	}
 	// (1) fixed cases: shadowing, every container kind, recursion, the one-of/namespace interaction
 	inner := dScope("A", dObject("A", false, propD{name: "inner", t: dBool()}, propD{name: "b", t: dRef("B", "")}),
 		dObject("B", false, propD{name: "innerB", t: dInt(nil, nil, nil)}))
@@ -768,6 +837,7 @@ func genC14(r *Rng, tier string, emit func(*sx.Node)) {
 	emit(c14Case(nil, mutual, orderSx(), mutOps))
 	emit(c14CaseRB(nil, mutual, orderSx(), mutOps))
 	// (2) generated scope trees
+	fixed = false
 	n := 500
 	if tier == "thorough" {
 		n = 2500
